@@ -36,6 +36,8 @@ VARIANTS = {
     "asan":  dict(cc="clang", cxx="clang++", flags="-g -O1 -fsanitize=address,undefined -fno-sanitize-recover=undefined -fno-omit-frame-pointer"),
     "plain": dict(cc="gcc", cxx="g++", flags="-O2 -g"),
     "tsan":  dict(cc="clang", cxx="clang++", flags="-g -O1 -fsanitize=thread"),
+    # the library as a real shared object (-z now: relocation done at load time, so its writable segment can be mapped read-only)
+    "shared": dict(cc="gcc", cxx="g++", flags="-O1 -g", shared=True),
 }
 WRAP = "-Wl,--wrap=malloc,--wrap=calloc,--wrap=realloc,--wrap=reallocarray,--wrap=free"
 
@@ -65,13 +67,22 @@ def build(variant="asan"):
     for c in sorted(glob.glob(os.path.join(VERIF, "harness", "*.cpp"))):
         o = os.path.join(tmp, os.path.basename(c) + ".o")
         jobs.append("%s -std=c++17 %s -D%s %s -c %s -o %s" % (v["cxx"], v["flags"], GUARD, inc, c, o))
+    if v.get("shared"):
+        jobs = [j.replace(" -c ", " -fPIC -c ", 1) if "/src/" in j.split(" -c ")[1] else j for j in jobs]
     with concurrent.futures.ThreadPoolExecutor(NCPU) as ex:
         res = list(ex.map(sh, jobs))
     for j, r in zip(jobs, res):
         if r.returncode != 0:
             shutil.rmtree(tmp, ignore_errors=True)
             raise Infra("build failed (%s):\n%s\n%s" % (variant, j, r.stdout[-3000:]))
-    r = sh("%s %s %s %s/*.o -o %s/vh -lpthread" % (v["cxx"], v["flags"], WRAP, tmp, tmp))
+    if v.get("shared"):
+        libobjs = " ".join(os.path.join(tmp, os.path.basename(c) + ".o") for c in sorted(glob.glob(os.path.join(REPO, "src", "*.c"))))
+        hobjs = " ".join(os.path.join(tmp, os.path.basename(c) + ".o") for c in sorted(glob.glob(os.path.join(VERIF, "harness", "*.cpp"))))
+        r = sh("%s -shared -Wl,-z,now -Wl,-z,relro -o %s/liburiparser.so %s" % (v["cc"], tmp, libobjs))
+        if r.returncode == 0:
+            r = sh("%s %s %s %s -o %s/vh -L%s -luriparser -Wl,-rpath,'$ORIGIN' -lpthread" % (v["cxx"], v["flags"], WRAP, hobjs, tmp, tmp))
+    else:
+        r = sh("%s %s %s %s/*.o -o %s/vh -lpthread" % (v["cxx"], v["flags"], WRAP, tmp, tmp))
     if r.returncode != 0:
         shutil.rmtree(tmp, ignore_errors=True)
         raise Infra("link failed:\n" + r.stdout[-3000:])
